@@ -50,12 +50,14 @@ type c08Probe struct {
 	Signer int    `json:"s"`               // -1 nobody, 0..2 pool key, 3 the stranger's key
 	Alter  int    `json:"alter,omitempty"` // 0 no, 1 operations swapped after signing, 2 edit clock changed after signing
 	Warm   int    `json:"warm,omitempty"`  // k+1: before this probe is read, a commit carrying the SAME operations and genuinely signed by pool key k is read in the same process
+	Empty  int    `json:"empty,omitempty"` // 1, 2: the probe is a commit WITHOUT operations ("ops": [] / null) by the author, at time t+1, on top of a root commit (time t) by an author without keys
 }
 type c08Write struct {
 	Have []int `json:"have"` // private keys present in the keyring
 }
 type c08Input struct {
 	Mode     string       `json:"mode"` // api | raw
+	InPlace  bool         `json:"in_place,omitempty"` // api mode: a key change that keeps the number of keys rewrites Mutator.Keys in place and changes nothing else
 	Versions []c08Version `json:"versions"`
 	Probes   []c08Probe   `json:"probes"`
 	Writes   []c08Write   `json:"writes,omitempty"`
@@ -226,6 +228,8 @@ func c08ProbesFor(vs []c08Version) []c08Probe {
 		res = append(res, c08Probe{T: t, Signer: s, Alter: 1}, c08Probe{T: t, Signer: s, Alter: 2})
 		// the same operations, first seen genuinely signed by the right key, then met again unsigned / signed by a stranger
 		res = append(res, c08Probe{T: t, Signer: -1, Warm: s + 1}, c08Probe{T: t, Signer: c08PoolSize, Warm: s + 1})
+		// a commit without operations is a commit like any other: unsigned, signed by a stranger, by the right key
+		res = append(res, c08Probe{T: t, Signer: -1, Empty: 1}, c08Probe{T: t, Signer: c08PoolSize, Empty: 2}, c08Probe{T: t, Signer: s, Empty: 1 + int(t%2)})
 	}
 	return res
 }
@@ -245,6 +249,7 @@ func c08ApiHistories(maxN int) []c08Input {
 				}
 				in.Probes = c08ProbesFor(in.Versions)
 				in.Writes = c08WritesFor(in.Versions)
+				in.InPlace = len(res)%2 == 1
 				res = append(res, in)
 			}
 		}
@@ -376,6 +381,17 @@ func c08BuildIdentity(repo repository.ClockedRepo, in c08Input) (entity.Id, erro
 			continue
 		}
 		name := fmt.Sprintf("author v%d", i)
+		if in.InPlace && len(keys) == len(in.Versions[i-1].Keys) && len(keys) > 0 {
+			// a rotation: same number of keys, written over the ones the mutator hands out, nothing else changed
+			if err := id.Mutate(repo, func(m *identity.Mutator) {
+				for j := range keys {
+					m.Keys[j] = keys[j]
+				}
+			}); err != nil {
+				return "", err
+			}
+			continue
+		}
 		if err := id.Mutate(repo, func(m *identity.Mutator) { m.Name = name; m.Keys = keys }); err != nil {
 			return "", err
 		}
@@ -484,7 +500,51 @@ func c08CommitWarm(repo repository.ClockedRepo, gr *git.Repository, author ident
 	return h, id, warm, err
 }
 
+// c08Plain is an identity without keys (set per case by Run): it authors the root below an empty probe.
+var c08Plain identity.Interface
+
 func c08CommitInner(repo repository.ClockedRepo, gr *git.Repository, author identity.Interface, p c08Probe, n int) (repository.Hash, entity.Id, repository.Hash, error) {
+	if p.Empty > 0 {
+		rootTree, id, err := c08Tree(repo, c08Plain, fmt.Sprintf("root of probe %d", n), p.T, int64(1600001000+n))
+		if err != nil {
+			return "", "", "", err
+		}
+		root, err := repo.StoreCommit(rootTree)
+		if err != nil {
+			return "", "", "", err
+		}
+		ops := []dag.Operation{}
+		if p.Empty == 2 {
+			ops = nil
+		}
+		data, err := json.Marshal(packJSON{Author: author, Operations: ops})
+		if err != nil {
+			return "", "", "", err
+		}
+		blob, err := repo.StoreData(data)
+		if err != nil {
+			return "", "", "", err
+		}
+		emptyBlob, err := repo.StoreData([]byte{})
+		if err != nil {
+			return "", "", "", err
+		}
+		tree, err := repo.StoreTree([]repository.TreeEntry{
+			{ObjectType: repository.Blob, Hash: emptyBlob, Name: "version-4"},
+			{ObjectType: repository.Blob, Hash: blob, Name: "ops"},
+			{ObjectType: repository.Blob, Hash: emptyBlob, Name: fmt.Sprintf("edit-clock-%d", p.T+1)},
+		})
+		if err != nil {
+			return "", "", "", err
+		}
+		var h repository.Hash
+		if p.Signer < 0 {
+			h, err = repo.StoreCommit(tree, root)
+		} else {
+			h, err = repo.StoreSignedCommit(tree, c08Keys()[p.Signer].PGPEntity(), root)
+		}
+		return h, id, "", err
+	}
 	tree, id, err := c08Tree(repo, author, fmt.Sprintf("probe %d", n), p.T, int64(1600001000+n))
 	if err != nil {
 		return "", "", "", err
@@ -716,6 +776,23 @@ func (c08Driver) Run(raw json.RawMessage) Case {
 		return Case{Skip: "stranger: " + err.Error()}
 	}
 
+	plain, err := identity.NewIdentityFull(repo, "plain", "p@example.org", "", "", nil)
+	if err != nil {
+		return Case{Skip: "plain: " + err.Error()}
+	}
+	if err := plain.Commit(repo); err != nil {
+		return Case{Skip: "plain: " + err.Error()}
+	}
+	c08Plain = plain
+	// an empty probe sits one tick above its root
+	for i := range in.Probes {
+		if in.Probes[i].Empty > 0 {
+			if in.Probes[i].Alter != 0 || in.Probes[i].Warm != 0 {
+				return Case{Skip: "bad probe"}
+			}
+		}
+	}
+
 	// probes: write, read locally, then offer to MergeAll
 	pobs := make([]c08ProbeObs, len(in.Probes))
 	ids := make([]entity.Id, len(in.Probes))
@@ -743,7 +820,11 @@ func (c08Driver) Run(raw json.RawMessage) Case {
 			return Case{Skip: "update ref: " + err.Error()}
 		}
 		v, msg := c08Read(repo, id)
-		pobs[i] = c08ProbeObs{T: p.T, S: p.Signer, Alter: p.Alter, Kind: c08Kind(vs, p), Read: v, Merge: 2, Err: msg}
+		pe := p
+		if p.Empty > 0 {
+			pe.T = p.T + 1
+		}
+		pobs[i] = c08ProbeObs{T: pe.T, S: p.Signer, Alter: p.Alter, Kind: c08Kind(vs, pe), Read: v, Merge: 2, Err: msg}
 		if err := repo.RemoveRef(local); err != nil {
 			return Case{Skip: "remove ref: " + err.Error()}
 		}
@@ -866,7 +947,10 @@ func (c08Driver) Run(raw json.RawMessage) Case {
 			s = coqSome(coqN(uint64(p.Signer)))
 		}
 		o := pobs[i]
-		pterms = append(pterms, fmt.Sprintf("mkprobe %s %s %s %s %s", coqN(p.T), s, coqBool(p.Alter > 0), coqN(uint64(o.Read)), coqN(uint64(o.Merge))))
+		pterms = append(pterms, fmt.Sprintf("mkprobe %s %s %s %s %s %s", coqN(o.T), s, coqBool(p.Alter > 0), coqBool(p.Empty > 0), coqN(uint64(o.Read)), coqN(uint64(o.Merge))))
+		if p.Empty > 0 {
+			tagset["probe:without-operations"] = true
+		}
 		tagset["probe:"+o.Kind+"="+verdict[o.Read]] = true
 		if o.Read == 2 {
 			tagset["panic:read"] = true
@@ -909,7 +993,26 @@ func (c08Driver) Run(raw json.RawMessage) Case {
 		tags = append(tags, t)
 	}
 	sort.Strings(tags)
-	term := fmt.Sprintf("mkcase %s %s %s", coqList(vterms), coqList(pterms), coqList(wterms))
+	// what was asked for through the API must be what git holds: one version per call that changed something
+	requested := "None"
+	if in.Mode == "api" {
+		var rs []string
+		for i, v := range in.Versions {
+			if i > 0 && in.InPlace && len(v.Keys) == len(in.Versions[i-1].Keys) && len(v.Keys) > 0 {
+				same := true
+				for j := range v.Keys {
+					same = same && v.Keys[j] == in.Versions[i-1].Keys[j]
+				}
+				if same {
+					continue // nothing changed: Mutate creates no version
+				}
+				tagset["key-rotation-in-place"] = true
+			}
+			rs = append(rs, nlist(v.Keys))
+		}
+		requested = coqSome(coqList(rs))
+	}
+	term := fmt.Sprintf("mkcase %s %s %s %s", coqList(vterms), requested, coqList(pterms), coqList(wterms))
 	obs := map[string]interface{}{"versions": vs, "probes": pobs, "writes": wobs}
 	return Case{Coq: term, Obs: obs, Tags: tags, NonTrivial: keyed, Key: string(raw)}
 }
